@@ -37,6 +37,9 @@ def gen_demux_case(ctx):
             argv += ["--untrimmed-paired-output", "{dir}/ut2.fastq"]
     if rng.random() < 0.3:
         argv += ["-m", str(rng.randint(5, 15))]
+    multi = not comb and rng.random() < 0.4
+    if multi:
+        argv += ["--times", str(rng.randint(2, 3))]
     if comb:
         argv += ["-o", "{dir}/dm-{name1}-{name2}.1.fastq", "-p", "{dir}/dm-{name1}-{name2}.2.fastq"]
     else:
@@ -44,6 +47,17 @@ def gen_demux_case(ctx):
         if paired:
             argv += ["-p", "{dir}/dm-{name}.2.fastq"]
     r1, r2 = pipe.gen_reads(rng, rng.randint(3, 9), seqs[: len(names)], [seqs[2 - i] for i in range(len(names2))] or seqs[:1], paired)
+    if multi and len(names) > 1:
+        # reads in which two different adapters are removed in successive rounds (the LAST match names the file)
+        extra = []
+        for i, (nm, s_, q_) in enumerate(r1):
+            if rng.random() < 0.6:
+                a, b = rng.sample(range(len(names)), 2)
+                s2 = seqs[a] + pipe.rs(rng, rng.randint(4, 10)) + seqs[b] + pipe.rs(rng, rng.randint(0, 4))
+                extra.append((nm, s2, "I" * len(s2)))
+            else:
+                extra.append((nm, s_, q_))
+        r1 = extra
     return dict(argv=argv, paired=paired, reads1=r1, reads2=r2, with_qual=True, interleaved_in=False, demux_case=True,
                 names=names, names2=names2, comb=comb)
 
